@@ -10,6 +10,13 @@
               `C02 (infertype <fn> <table>)` answers the scheme as an s-expression instead:
               (k (<ty> ...) <ty> determined|ambiguous)   with variables (tv i).
 
+   Request:   C02 (inferres <fn> <table>)   /  (inferres-rev <fn> <table>)
+              the same signature text, but the constraints are solved by the transcription of fc's OWN
+              resolver (Core/Resolver.v: compositeTp/updateResolver/resolveOneTypeVar), dict.Keys order =
+              insertion order / reversed; PANIC, CYCLE, FUEL or ILLTYPED (no constraints) otherwise;
+              prefixed with "IGNORED-CLASH " when the resolver silently ignored a clash.
+   Request:   C02 (resolve (<eq> ...) [rev])   see handle_resolve below.
+
    <fn>    ::= (fn "name" (<param> ...) <exp>)
    <param> ::= ("x" _) | ("x" <ty>)                      annotation: a ground type
    <ty>    ::= int | string | bool | float | (slice <ty>) | (tuple <ty> <ty> ..) | (fun (<ty> ..) <ty>)
@@ -37,6 +44,8 @@ let rec nat_of_int n = if n <= 0 then O else S (nat_of_int (n - 1))
 let rec int_of_nat = function O -> 0 | S n -> 1 + int_of_nat n
 
 let big_fuel = nat_of_int 200000
+(* the resolver loop can diverge on cyclic constraints (Props/C02.v C02_update_resolver_can_diverge): modest fuel *)
+let res_fuel = nat_of_int 2000
 
 
 let index_of_name what (names : string list) (n : string) : int =
@@ -108,6 +117,38 @@ let parse_table (s : Sexp.t) =
     ({ d_types = decls; d_globals = globals }, tnames, members, gnames)
   | _ -> raise (Parse_error "table")
 
+(* compositeTp compares the NAMES of type variables (strings _T<n>), i.e. lexicographically *)
+let later_names x y = compare ("_T" ^ string_of_int (int_of_nat x)) ("_T" ^ string_of_int (int_of_nat y)) > 0
+let enum_id (l : nat list) = l
+let enum_rev (l : nat list) = List.rev l
+
+let rec ty_vars acc (t : ty) = match t with
+  | TVar x -> let i = int_of_nat x in if List.mem i acc then acc else acc @ [i]
+  | TAtom _ -> acc
+  | TNode (a, b) -> ty_vars (ty_vars acc a) b
+
+(* C02 (resolve (<eq> ...) [rev])   <eq> ::= (<ty> <ty>)  with variables (tv i), named types by number: (named <i> <ty> ...)
+   -> SOLVED[ IGNORED-CLASH] ((tv i) <ty>) ...   the resolved type of every variable of the equations
+    | PANIC | CYCLE | FUEL ; the model is Core/Resolver.v solve + resolve_type (fc/infer.fo's own algorithm) *)
+let handle_resolve eqs rev =
+  let tnames = List.init 64 string_of_int in
+  let es = List.map (function L [l; r] -> (ty_of tnames l, ty_of tnames r) | _ -> raise (Parse_error "equation")) eqs in
+  let enum = if rev then enum_rev else enum_id in
+  match solve later_names enum res_fuel es with
+  | SPanic -> "PANIC"
+  | SFuel -> "FUEL"
+  | SSolved (st, ign) ->
+    let vars = List.fold_left (fun acc (l, r) -> ty_vars (ty_vars acc l) r) [] es in
+    let ta = Array.of_list tnames in
+    let rs = List.map (fun v -> (v, resolve_type res_fuel st (TVar (nat_of_int v)))) vars in
+    if List.exists (fun (_, r) -> r = RCycle) rs then "CYCLE"
+    else if List.exists (fun (_, r) -> r = RFuel) rs then "FUEL"
+    else
+      "SOLVED" ^ (if ign then " IGNORED-CLASH" else "") ^
+      String.concat "" (List.map (fun (v, r) -> match r with
+          | ROk t -> " ((tv " ^ string_of_int v ^ ") " ^ sexp_of_ty ta t ^ ")"
+          | _ -> "") rs)
+
 let handle want_type fn table =
   let (d, tnames, members, gnames) = parse_table table in
   let vars : (string, int) Hashtbl.t = Hashtbl.create 16 in
@@ -153,13 +194,25 @@ let handle want_type fn table =
         | _ -> raise (Parse_error "param")) params in
     let fd = { f_params = List.map (fun (x, a) -> (var x, a)) ps; f_body = ex body } in
     let ta = Array.of_list tnames in
+    if want_type = 2 || want_type = 3 then begin
+      (* the signature obtained with the transcription of fc's own resolver (Core/Resolver.v) *)
+      let names i = let i = int_of_nat i in explode (if i < Array.length ta then ta.(i) else "?") in
+      match infer_fun_resolver later_names (if want_type = 3 then enum_rev else enum_id) d res_fuel fd with
+      | RInferred (k, ptys, rty, ign) ->
+        (if ign then "IGNORED-CLASH " else "") ^
+        implode (sig_to_go names (explode (str_of name)) (List.map (fun (x, _) -> explode x) ps) k ptys rty)
+      | RPanicked -> "PANIC"
+      | RCyclic -> "CYCLE"
+      | ROutOfFuel -> "FUEL"
+      | RNoConstraints -> "ILLTYPED"
+    end else
     let amb = infer_ambiguous d big_fuel fd in
     let opn = infer_open_named d big_fuel fd in
     (match infer_fun d big_fuel fd with
      | OutOfFuel -> "FUEL"
      | IllTyped -> "ILLTYPED"
      | Inferred (k, ptys, rty) ->
-       if want_type then
+       if want_type = 1 then
          "(" ^ string_of_int (int_of_nat k) ^ " (" ^ String.concat " " (List.map (sexp_of_ty ta) ptys) ^ ") " ^ sexp_of_ty ta rty ^ (if amb then " ambiguous" else " determined") ^ (if opn then " opennamed" else " closednamed") ^ ")"
        else
          let names i = let i = int_of_nat i in explode (if i < Array.length ta then ta.(i) else "?") in
@@ -168,6 +221,10 @@ let handle want_type fn table =
   | _ -> raise (Parse_error "fn")
 
 let () = Registry.register "C02" (function
-    | L [A "infer"; fn; table] -> handle false fn table
-    | L [A "infertype"; fn; table] -> handle true fn table
+    | L [A "infer"; fn; table] -> handle 0 fn table
+    | L [A "infertype"; fn; table] -> handle 1 fn table
+    | L [A "inferres"; fn; table] -> handle 2 fn table
+    | L [A "inferres-rev"; fn; table] -> handle 3 fn table
+    | L [A "resolve"; L eqs] -> handle_resolve eqs false
+    | L [A "resolve"; L eqs; A "rev"] -> handle_resolve eqs true
     | _ -> "ERR bad C02 request")
